@@ -113,6 +113,8 @@ FAMILIES = {
     "specials": ["S", "N", "S", "R", "S", "N"],
     "unfused": ["U", "U", "N", "Rbig", "U", "N", "B", "N"],
     "sig_then_bars": ["T", "Rbig", "B", "N", "Rbig", "Rbig", "B", "N"],
+    "sig_after_note": ["N", "T", "Rbig", "B", "N", "T", "B", "N"],
+    "note_bar_sig": ["B", "N", "N", "T", "B", "N"],
 }
 
 
